@@ -9,6 +9,8 @@ About `MhlModel.flattenRecords` for arbitrary `gens : List LGen` (nothing assume
   once, at the position of its first appearance.  So two histories with the same item sequence give the same record
   order, whatever else differs (`flatten_order_congr`).
 * `flatten_size_is_first`: the size of a record is the size attribute of the first item of that path.
+* `flatten_absorbs`: generations that only repeat (path, format) pairs already recorded leave the list unchanged
+  (a later digest never replaces the earliest one and never adds a record); `flatten_idempotent`.
 * `flatten_prefix`: sealing a further generation never reorders or removes what the packing list already held: the
   paths of the shorter history are a prefix of the paths of the longer one.
 -/
@@ -218,6 +220,61 @@ theorem flatten_size_is_first (gens : List LGen) (p : String) :
     sizeOf (flattenRecords gens) p = firstSize (items gens) p := by
   rw [flattenRecords_eq_items, foldl_ins_sizeOf]; rfl
 
+/-! ### a generation that only repeats what is recorded changes nothing -/
+
+/-- `acc` already holds an entry of the item's format in the record of the item's path -/
+def Covered (acc : List Record) (it : Item) : Prop :=
+  ∃ r ∈ acc, r.path = it.path ∧ ∃ e ∈ r.entries, e.fmt = it.entry.fmt
+
+theorem ins_of_covered (acc : List Record) (it : Item) (hn : (acc.map (·.path)).Nodup) (h : Covered acc it) :
+    ins acc it = acc := by
+  obtain ⟨r, hr, hp, e, he, hf⟩ := h
+  unfold ins
+  split
+  · next hnone =>
+    have := List.find?_eq_none.1 hnone r hr
+    simp [hp] at this
+  · next x hsome =>
+    have hx := List.mem_of_find?_eq_some hsome
+    have hxp := List.find?_some hsome
+    simp only [beq_iff_eq] at hxp
+    have hrx : r = x := eq_of_nodup_map_path hn hr hx (hp.trans hxp.symm)
+    subst hrx
+    have hany : (r.entries.any fun y => y.fmt == it.entry.fmt) = true :=
+      List.any_eq_true.2 ⟨e, he, by simp [hf]⟩
+    simp [hany]
+
+theorem foldl_ins_of_covered (L : List Item) (acc : List Record) (hn : (acc.map (·.path)).Nodup)
+    (h : ∀ it ∈ L, Covered acc it) : L.foldl ins acc = acc := by
+  induction L with
+  | nil => rfl
+  | cons it L ih =>
+    rw [List.foldl_cons, ins_of_covered acc it hn (h it (List.mem_cons_self ..))]
+    exact ih fun it' hit => h it' (List.mem_cons_of_mem _ hit)
+
+theorem covered_of_inv {L : List Item} {acc : List Record} (inv : Inv L acc) (it : Item) (hit : it ∈ L) :
+    Covered acc it := by
+  obtain ⟨e, he⟩ := firstItem_isSome_of_mem hit
+  obtain ⟨r, hr, hp, hmem⟩ := inv.complete _ _ _ he
+  exact ⟨r, hr, hp, e, hmem, (firstItem_some he).1⟩
+
+/-- generations whose non-failed file entries all repeat a (path, format) pair that the history already holds
+leave the packing list as it is — whatever digests, sizes or actions they carry -/
+theorem flatten_absorbs (g₁ g₂ : List LGen)
+    (h : ∀ it ∈ items g₂, ∃ it' ∈ items g₁, it'.path = it.path ∧ it'.entry.fmt = it.entry.fmt) :
+    flattenRecords (g₁ ++ g₂) = flattenRecords g₁ := by
+  have inv := flattenRecords_inv g₁
+  rw [flattenRecords_eq_items, items_append, List.foldl_append, ← flattenRecords_eq_items]
+  apply foldl_ins_of_covered _ _ inv.pathsNodup
+  intro it hit
+  obtain ⟨it', hit', hp, hf⟩ := h it hit
+  obtain ⟨r, hr, hrp, e, he, hef⟩ := covered_of_inv inv it' hit'
+  exact ⟨r, hr, hrp.trans hp, e, he, hef.trans hf⟩
+
+/-- in particular, the same generations read twice give the same list -/
+theorem flatten_idempotent (gens : List LGen) : flattenRecords (gens ++ gens) = flattenRecords gens :=
+  flatten_absorbs gens gens fun it hit => ⟨it, hit, rfl, rfl⟩
+
 /-! ### the premises are met by a concrete history, and the statements are not trivial on it -/
 
 private def e (f a : String) : Entry := { fmt := f, digest := "00", action := a }
@@ -231,6 +288,9 @@ private def hist : List LGen :=
 
 example : (flattenRecords hist).map (·.path) = ["b", "a"] := by decide
 example : sizeOf (flattenRecords hist) "b" = some (some 3) ∧ sizeOf (flattenRecords hist) "a" = some (some 7) := by
+  decide
+
+example : flattenRecords (hist ++ [g 3 [{ path := "a", size := some 9, entries := [e "md5" "verified"] }]]) = flattenRecords hist := by
   decide
 
 end MhlProps.C18order
